@@ -178,12 +178,12 @@ class SeriesWorld(World):
             "alien": alien,
             "base": BASES[freq](rng),
             "alien_base": BASES[alien](rng),
-            "pop": rng.randint(3, 7),
+            "pop": rng.randint(3, 7) if tier == "quick" else rng.randint(3, 9),
             "actors": rng.randint(1, 3),
-            "steps": rng.choice([20, 40, 60]) if tier != "quick" else rng.choice([20, 40, 60]),
+            "steps": rng.choice([20, 40, 60]) if tier == "quick" else rng.choice([20, 40, 60, 100, 150]),
             "nan_density": rng.choice([0.0, 0.1, 0.3, 0.6]),
-            "max_len": rng.choice([3, 6, 12]),
-            "max_nv": rng.choice([1, 2, 3, 3]),
+            "max_len": rng.choice([3, 6, 12]) if tier == "quick" else rng.choice([3, 6, 12, 24]),
+            "max_nv": rng.choice([1, 2, 3, 3]) if tier == "quick" else rng.choice([1, 2, 3, 3, 5]),
             "p_func": rng.choice([0.2, 0.5, 0.8]),
             "p_foreign": rng.choice([0.2, 0.5]),
             "weights": weights,
